@@ -13,7 +13,6 @@ import os
 import sys
 import time
 import traceback
-from concurrent.futures import ProcessPoolExecutor, as_completed
 
 VERIF = os.path.dirname(os.path.dirname(os.path.abspath(__file__)))
 REPO = os.environ.get("VERIF_REPO", "/repo")
@@ -170,6 +169,56 @@ def clause_in_property(c, clause: str, kind: str, prop: str) -> bool:
     return prop in cp
 
 
+def _task_entry(conn, fn, args):
+    try:
+        conn.send(("ok", fn(*args)))
+    except BaseException as e:  # noqa
+        import traceback
+        try:
+            conn.send(("exc", f"{e!r}\n{traceback.format_exc()[-1500:]}"))
+        except Exception:
+            pass
+    finally:
+        conn.close()
+
+
+def _run_tasks(tasks, par):
+    """[(key, fn, args)] -> {key: ("ok", result) | ("exc", text) | ("died", exit code)}; one spawned interpreter per
+    task, at most `par` at a time."""
+    import multiprocessing
+    from multiprocessing.connection import wait
+    ctx = multiprocessing.get_context("spawn")
+    pending = list(tasks)
+    running = {}
+    out = {}
+    while pending or running:
+        while pending and len(running) < par:
+            key, fn, args = pending.pop(0)
+            rd, wr = ctx.Pipe(duplex=False)
+            p = ctx.Process(target=_task_entry, args=(wr, fn, args))
+            p.start()
+            wr.close()
+            running[key] = (p, rd)
+        wait([rd for _, rd in running.values()] + [p.sentinel for p, _ in running.values()], timeout=5)
+        for key, (p, rd) in list(running.items()):
+            got = None
+            if rd.poll():
+                try:
+                    got = rd.recv()
+                except (EOFError, OSError):
+                    got = ("died", p.exitcode)
+            elif not p.is_alive():
+                got = ("died", p.exitcode)
+            if got is not None:
+                out[key] = got
+                rd.close()
+                p.join(5)
+                if p.is_alive():
+                    p.kill()
+                del running[key]
+    return out
+
+
 def main(argv=None):
     argv = list(sys.argv[1:] if argv is None else argv)
     tier = os.environ.get("VERIF_TIER", "quick")
@@ -198,51 +247,34 @@ def main(argv=None):
     jobs = max(2, 16 // par)
     # big functions first (longest-processing-time order keeps the tail short)
     contracts.sort(key=lambda c_: -len(c_.ensures) - 3 * len(c_.loop_inv))
-    import multiprocessing
-    # every task in a fresh interpreter (z3's context, counters and enum sorts are process-global)
-    with ProcessPoolExecutor(max_workers=par + 1, max_tasks_per_child=1,
-                             mp_context=multiprocessing.get_context("spawn")) as ex:
-        futs = {}
-        for c in contracts:
-            if c.trusted:
-                continue  # assumed, never verified: listed under assumptions and in the function table
-            futs[ex.submit(_verify_worker, c.fq, timeout_ms, seed, jobs)] = ("v", c)
-            if has_native_gen(c.spec_module, c.name):
-                futs[ex.submit(_native_worker, c.spec_module, c.name, n_native, seed)] = ("n", c)
-        futs[ex.submit(_custom_worker, prop, tier, seed)] = ("c", None)
-        redo = []
-        for f in as_completed(futs):
-            kind, c = futs[f]
-            try:
-                r_ = f.result()
-            except Exception:  # BrokenProcessPool: a worker died (e.g. killed for memory while other jobs ran)
-                redo.append((kind, c))
-                continue
-            if kind == "v":
-                results[c.fq] = r_
-            elif kind == "n":
-                natives[c.fq] = r_
-            else:
-                custom = r_
+    # every task in a fresh interpreter (z3's context, counters and enum sorts are process-global).  Own process
+    # management instead of ProcessPoolExecutor(max_tasks_per_child=1): that combination can deadlock in CPython
+    # 3.12.1 (a finished worker is not replaced while tasks are pending) - seen once as a check that never returned
+    tasks = []
+    for c in contracts:
+        if c.trusted:
+            continue  # assumed, never verified: listed under assumptions and in the function table
+        tasks.append((("v", c.fq), _verify_worker, (c.fq, timeout_ms, seed, jobs)))
+        if has_native_gen(c.spec_module, c.name):
+            tasks.append((("n", c.fq), _native_worker, (c.spec_module, c.name, n_native, seed)))
+    tasks.append((("c", None), _custom_worker, (prop, tier, seed)))
+    done = _run_tasks(tasks, par + 1)
+    redo = [t for t in tasks if done[t[0]][0] != "ok"]
     if redo:
-        # one more attempt, one task at a time, each in a fresh interpreter
-        for kind, c in redo:
-            with ProcessPoolExecutor(max_workers=1, max_tasks_per_child=1,
-                                     mp_context=multiprocessing.get_context("spawn")) as ex2:
-                try:
-                    if kind == "v":
-                        results[c.fq] = ex2.submit(_verify_worker, c.fq, timeout_ms, seed, 8).result()
-                    elif kind == "n":
-                        natives[c.fq] = ex2.submit(_native_worker, c.spec_module, c.name, n_native, seed).result()
-                    else:
-                        custom = ex2.submit(_custom_worker, prop, tier, seed).result()
-                except Exception as e:  # noqa
-                    if kind == "v":
-                        results[c.fq] = {"error": f"verification worker died twice: {e!r}", "obligations": []}
-                    elif kind == "n":
-                        natives[c.fq] = {"error": f"native worker died twice: {e!r}"}
-                    else:
-                        custom = {"error": f"custom worker died twice: {e!r}"}
+        # one more attempt, one task at a time (a worker may have been killed for memory while other jobs ran)
+        second = _run_tasks([(k, f, (a[:3] + (8,) if k[0] == "v" else a)) for k, f, a in redo], 1)
+        done.update(second)
+    for (kind, fq_), (st_, val_) in done.items():
+        if st_ != "ok":
+            val_ = {"error": f"{ {'v': 'verification', 'n': 'native', 'c': 'custom'}[kind] } worker died twice: {val_}"}
+            if kind == "v":
+                val_["obligations"] = []
+        if kind == "v":
+            results[fq_] = val_
+        elif kind == "n":
+            natives[fq_] = val_
+        else:
+            custom = val_
 
     exit_code = 0
     lines = []
